@@ -66,6 +66,12 @@ def parseRequest (s : String) : Option Request :=
     pure (mkRequest ty url schema host src (tp == "1") orig)
   | _ => none
 
+/-- the source hostname field of a request dump -/
+def parseRequestSrc (s : String) : Option Str :=
+  match s.splitOn ";" with
+  | [_, _, _, _, src, _, _] => unhex src
+  | _ => none
+
 /-- resources separated by `|`: `name;aliases(hexlist);kind;mime;content;permission;deps(hexlist)` — the attempted `add_resource` calls in order -/
 def parseStore (s : String) : Option Store :=
   if s == "." then some [] else
